@@ -110,6 +110,11 @@ func c05Targets() []tgtVariant {
 		mk("extra-field", f("A", tInt), f("B", tStr), f("Name", tStr), f("D", tInt)),
 		mk("unexported-field", f("A", tInt), f("B", tStr), f("Name", tStr), f("x", tInt)),
 		mk("pointer-field", f("A", space.P(tInt)), f("B", tStr), f("Name", tStr)),
+		// W takes the whole source struct (goverter:map . W): a named target struct with a subset of the fields
+		{"whole-field", func(id string, _ *space.Decl) (*space.Decl, []*space.Decl) {
+			w := &space.Decl{Pkg: "out", Name: "W" + id, Under: space.St(f("A", tInt), f("B", tStr))}
+			return &space.Decl{Pkg: "out", Name: "T" + id, Under: space.St(f("A", tInt), f("B", tStr), f("Name", tStr), f("W", space.N(w)))}, []*space.Decl{w}
+		}},
 	}
 }
 
@@ -120,6 +125,7 @@ var c05Menu = []string{
 	"autoMap N", "autoMap N.M", "autoMap Nope",
 	"matchIgnoreCase", "ignoreMissing", "ignoreUnexported",
 	"map Nope A", "map B.X A", "map B A",
+	"map . W", "map . A", "ignore A D", "ignore W A", "ignore A B Name", "map N W",
 }
 
 func lineSubsets(menu []string, k int) [][]string {
